@@ -203,6 +203,26 @@ BACKENDS = [
 ]
 
 
+SLOTS = ("getter", "setter", "has_function", "clear_function", "del_function", "length_function",
+         "insert_function", "getkey_function")
+
+
+def _populate_elements(db, seed):
+    """every optional function slot of every element refers to a function of the file (distinct where possible)
+    and every has_* flag is set; at least two elements exist.  Deterministic in (db, seed)."""
+    import random
+    rng = random.Random("full-elements:%s" % (seed,))
+    fns = [f.index for f in db.functions]
+    if not fns or not db.elements:
+        return
+    for e in db.elements:
+        picks = [rng.choice(fns) for _ in SLOTS]
+        for slot, v in zip(SLOTS, picks):
+            setattr(e, slot, v)
+        e.flags |= (idb.EF.has_getter | idb.EF.has_setter | idb.EF.has_has_function | idb.EF.has_clear_function |
+                    idb.EF.has_del_function | idb.EF.has_insert_function | idb.EF.has_getkey_function)
+
+
 def _materialize(ctx, src, d):
     """source spec -> (file bytes, idb.Database or None, minor).  Everything needed is inside `src`."""
     if "file" in src:          # literal file content (latin-1) - used by finding witnesses, independent of generators
@@ -212,6 +232,8 @@ def _materialize(ctx, src, d):
         s = src["syn"]
         db = idbgen.generate(s["seed"], **s["params"])
         minor = s["params"].get("minor", 3)
+        if s.get("full_elements"):
+            _populate_elements(db, s["seed"])
         return idb.serialize(db, minor=minor), db, minor
     if "real" in src:
         r = src["real"]
@@ -784,9 +806,110 @@ def case_header(ctx, case, res):
     res.sample = {"source": case["src"], "variants": case["variants"]}
 
 
+def _sub_dump(dump, lo, hi):
+    """the part of an idbdump JSON whose entities have indices in [lo, hi)."""
+    out = {}
+    for k, v in dump.items():
+        if k in ENUM_KEYS:
+            out[k] = [i for i in v if lo <= i < hi]
+        elif k in SCALARS:
+            out[k] = [e for e in v if lo <= e["index"] < hi]
+        else:
+            out[k] = v
+    return out
+
+
+def case_mixed(ctx, case, res):
+    """one process loads two or three files of (possibly) different minor formats, one after the other; every
+    file's entities must answer as its own independent parse says (old-minor defaults included) and the error
+    flag must stay clear."""
+    d = ctx.casedir(case["id"])
+    files = []
+    for k, src in enumerate(case["srcs"]):
+        # two files may not define a type of the same true name (collapsing is C13's subject): bump the seed
+        for attempt in range(20):
+            s2 = json.loads(json.dumps(src))
+            s2["syn"]["seed"] = src["syn"]["seed"] + 7919 * attempt
+            x, db, minor = _materialize(ctx, s2, d)
+            pdb = idb.parse(x)
+            seen = {idb._cstr(t.true_name) for _, p, _ in files for t in p.types if t.true_name}
+            if not any(idb._cstr(t.true_name) in seen for t in pdb.types):
+                break
+        else:
+            res.inconclusive = "could not avoid type-name collisions between the files"
+            return
+        if idb.serialize(pdb, minor=minor) != x or pdb != idb.with_minor_defaults(db, minor) or not idb.is_closed(pdb):
+            res.inconclusive = "reference writer does not reproduce the file"
+            return
+        files.append((x, pdb, minor))
+    hx = ifacegen.hexs
+    lines = []
+    paths = []
+    for k, (x, pdb, minor) in enumerate(files):
+        f = os.path.join(d, "f%d.in" % k)
+        open(f, "wb").write(x)
+        paths.append(f)
+        lines += ["load " + hx(f), "force"]
+    out = os.path.join(d, "dump.json")
+    lines += ["dump " + hx(out), "err"]
+    r = _drive("\n".join(lines) + "\n", d, symbolize=True)
+    minors = [m for _, _, m in files]
+    label = "minors=" + ">".join("3.%d" % m for m in minors)
+    if r.timed_out:
+        res.inconclusive = "watchdog"
+        return
+    if r.died() or r.asan_report() or _ubsan_exit(r):
+        res.violation("mixed-minors-" + _crash_key(r), witness=label, got=r.err[-1200:])
+        return
+    if r.rc != 0:
+        raise core.HarnessError("idbdrive mixed run failed: " + r.err[-600:])
+    flags = [int(l.split()[1]) for l in r.out.splitlines() if l.startswith("E ")]
+    if len(flags) != len(files) + 1:
+        raise core.HarnessError("idbdrive mixed run: unexpected log")
+    for k, fl in enumerate(flags[:len(files)]):
+        if fl:
+            res.violation("mixed-minors-valid-file-rejected:%s" % _mixed_class(minors, k), witness=label,
+                          file_number=k + 1, stderr=r.err[-300:])
+            return
+    try:
+        dump = json.load(open(out))
+    except (OSError, ValueError) as ex:
+        raise core.HarnessError("idbdrive dump unreadable: %s" % ex)
+    first = 1
+    ok = True
+    for k, (x, pdb, minor) in enumerate(files):
+        ldb = idb.loaded(pdb, first_index=first)
+        n = sum(len(getattr(pdb, kind)) for kind in idb.KINDS)
+        q = idb.Query(ldb)
+        bad = compare_dump(_sub_dump(dump, first, first + n), q)
+        res.count("query_answers_compared", sum(len(e) for kk in SCALARS for e in dump[kk]
+                                                  if first <= e["index"] < first + n))
+        for rec, key in sorted(set(bad)):
+            ok = False
+            res.violation("mixed-minors-dump-differs:field=%s.%s" % (rec, key), witness=label, file_number=k + 1,
+                          cls=_mixed_class(minors, k))
+        first += n
+    res.count("files_loaded", len(files))
+    if ok:
+        res.features.add("mixed:" + label)
+        if any(p.elements for _, p, _ in files[1:]):
+            res.features.add("mixed:elements-in-later-file:" + label)
+    res.sample = {"minors": minors, "sources": case["srcs"]}
+
+
+def _mixed_class(minors, k):
+    """finite key alphabet: how the k-th file's minor relates to the first file's."""
+    if k == 0:
+        return "first-file"
+    return "later-file-" + ("older" if minors[k] < minors[0] else "newer" if minors[k] > minors[0] else "same") + "-minor"
+
+
 def run_case(ctx, case):
     res = core.CaseResult()
     kind = case["kind"]
+    if kind == "mixed":
+        case_mixed(ctx, case, res)
+        return res
     if kind == "roundtrip":
         case_roundtrip(ctx, case, res)
     elif kind == "prefix":
@@ -825,7 +948,8 @@ def main(chk):
                 "is one of: a source class (header x options | minor x string mode x flag mode) that round-tripped, a "
                 "(record kind, field, string class) triple present in a file that round-tripped byte-exactly, a record "
                 "kind present, an old-minor default observed, a prefix outcome class x section of the cut, a header "
-                "variant outcome.")
+                "variant outcome, a sequence of minor formats loaded into one process whose every file answered as its "
+                "own parse.")
     chk.assumptions = [
         "vf/idb.py (written from the on-disk format, sharing no code with libinterrogatedb) is the authority for "
         "what a file contains; a file it cannot reproduce byte-for-byte itself is inconclusive, never a violation",
@@ -905,6 +1029,20 @@ def main(chk):
     hsrc = [syn[i] for i in range(0, min(len(syn), chk.pick(8, 60)))] + real[:chk.pick(2, 10)]
     for s in hsrc:
         add({"kind": "header", "src": s, "variants": VARIANTS})
-    chk.extra["planned"] = {"real_files": len(real), "synthetic_files": len(syn), "prefixes": used,
+    # (e) histories: several files of different minor formats in ONE process (all ordered pairs, some triples)
+    def mixsrc(m):
+        return {"syn": {"seed": rng.randrange(1 << 30), "full_elements": True,
+                        "params": {"size": [3, 4, 5, 1, 3, 1], "jitter": False, "strings": rng.choice(("plain", "mixed")),
+                                   "flags": "random", "minor": m}}}
+    nmixed = 0
+    for rep in range(chk.pick(1, 8)):
+        for a in range(4):
+            for b in range(4):
+                add({"kind": "mixed", "srcs": [mixsrc(a), mixsrc(b)]})
+                nmixed += 1
+    for _ in range(chk.pick(8, 64)):
+        add({"kind": "mixed", "srcs": [mixsrc(rng.randrange(4)) for _ in range(3)]})
+        nmixed += 1
+    chk.extra["planned"] = {"mixed_minor_histories": nmixed,"real_files": len(real), "synthetic_files": len(syn), "prefixes": used,
                             "header_variant_cases": len(hsrc)}
     chk.run_cases(__name__, cases)
